@@ -91,6 +91,10 @@ def main():
                 tmo = max(h.timeout for h in batch)
                 log("[%s] kani %s/%s: %d harnesses, -j %d" % (prop, profile, features, len(batch), jobs))
                 res, compiled, out, wall = K.run(dest, [h.qualified() for h in batch], features, jobs, tmo)
+                try:
+                    write(os.path.join(VERIF, "logs", "%s-%s-%s-%s.log" % (prop, profile, features, "heavy" if batch is heavy else "light")), out)
+                except Exception:
+                    pass
                 if not compiled:
                     tail = "\n".join(out.split("\n")[-60:])
                     log(tail)
